@@ -26,6 +26,7 @@ type Script struct {
 	defSyms  map[string][]string
 	declared map[string]bool
 	mu       sync.Mutex
+	boolDefs map[string]string
 }
 
 func newScript(bv bool) *Script {
@@ -78,6 +79,12 @@ func (s *Script) define(hint string, sort string, term string) string {
 	}
 	n := s.fresh(hint)
 	s.emit("(define-fun %s () %s %s)", n, sort, term)
+	if sort == "Bool" {
+		if s.boolDefs == nil {
+			s.boolDefs = map[string]string{}
+		}
+		s.boolDefs[n] = term
+	}
 	return n
 }
 
@@ -180,6 +187,17 @@ func ite(c, a, b string) string {
 	}
 	if a == b {
 		return a
+	}
+	// Boolean special cases (the literals only occur at sort Bool): keep the structure of && and ||
+	switch {
+	case b == "false":
+		return and(c, a)
+	case a == "true":
+		return or(c, b)
+	case a == "false":
+		return and(not(c), b)
+	case b == "true":
+		return or(not(c), a)
 	}
 	return "(ite " + c + " " + a + " " + b + ")"
 }
@@ -499,4 +517,74 @@ func (s *Script) slice(p int, goal string, depth int) []bool {
 		}
 	}
 	return keep
+}
+
+// sexprArgs splits "(op a b c)" into op and its top-level arguments.
+func sexprArgs(s string) (string, []string) {
+	s = strings.TrimSpace(s)
+	if len(s) < 2 || s[0] != '(' || s[len(s)-1] != ')' {
+		return "", nil
+	}
+	body := s[1 : len(s)-1]
+	var parts []string
+	d := 0
+	start := -1
+	for i := 0; i < len(body); i++ {
+		c := body[i]
+		switch {
+		case c == '(':
+			if d == 0 && start < 0 {
+				start = i
+			}
+			d++
+		case c == ')':
+			d--
+			if d == 0 {
+				parts = append(parts, body[start:i+1])
+				start = -1
+			}
+		case c == ' ' || c == '\t' || c == '\n':
+			if d == 0 && start >= 0 {
+				parts = append(parts, body[start:i])
+				start = -1
+			}
+		default:
+			if d == 0 && start < 0 {
+				start = i
+			}
+		}
+	}
+	if start >= 0 {
+		parts = append(parts, body[start:])
+	}
+	if len(parts) == 0 {
+		return "", nil
+	}
+	return parts[0], parts[1:]
+}
+
+// splitGoal breaks a goal into conjuncts: (and a b) and (=> p (and a b)).
+func (s *Script) splitGoal(g string) []string {
+	if d, ok := s.boolDefs[g]; ok {
+		if parts := s.splitGoal(d); len(parts) > 1 {
+			return parts
+		}
+		return []string{g}
+	}
+	op, args := sexprArgs(g)
+	switch {
+	case op == "and" && len(args) > 0:
+		var out []string
+		for _, a := range args {
+			out = append(out, s.splitGoal(a)...)
+		}
+		return out
+	case op == "=>" && len(args) == 2:
+		var out []string
+		for _, b := range s.splitGoal(args[1]) {
+			out = append(out, implies(args[0], b))
+		}
+		return out
+	}
+	return []string{g}
 }
